@@ -13,6 +13,18 @@
    without blanks and glob characters only (the correspondence feeds other names in a
    separate stream that is reported for triage, never judged).
 
+   HANDLER BODIES (second half of this file).  A handler is a bash function; what makes
+   it "fail" under the strict mode of shell_lib.sh is not only an explicit `return N`:
+   any command of its body that fails outside a tested position ends the handler
+   (errexit, inherited by the `($handler)` subshell, by functions called from it and -
+   inherit_errexit - by command substitutions), a pipeline fails when any component
+   fails (pipefail), an unset variable is fatal (nounset), and a body that runs to its
+   end returns the status of its last command.  [cmd] is the class of body commands the
+   correspondence generates, [exec_body] is what bash does with a body (which commands
+   start, which status the function leaves) and [dispatchB]/[runB] are hook::run over
+   handlers given by their bodies.  [dispatch]/[run] above are the same loop over
+   handlers abstracted to their status (C19_Proofs.dispatchB_dispatch).
+
    No proofs in this file. *)
 From Coq Require Import String Ascii.
 From Verif Require Import Common.
@@ -168,3 +180,130 @@ Definition run (args : list bytes) (defined : list name) (results : name -> N ->
     then mkObs [config_entry] (results config_name 0%N) true
     else mkObs [] 127%N false
   else let (t, s) := dispatch defined results cs in mkObs t s false.
+
+(* ====================================================================================
+   Handler bodies under strict mode (shell_lib.sh:3-4  set -Eeuo pipefail;
+   shopt -s inherit_errexit).
+
+   A body is the list of commands of the function after the framework selected it; the
+   statuses [st] are what the individual simple commands exit with (scripted by the
+   harness: a function doing `return st`, `(exit st)`, an external `sh -c 'exit st'`,
+   `false`, `[[ -f /missing ]]`, `grep -q` ...).  Statuses are 0..255. *)
+Inductive cmd :=
+| Plain (st : N)                (* a simple/compound command in an ordinary position          *)
+| Pipe (sts : list N)           (* c1 | c2 | ... | cn                                         *)
+| OrTrue (st : N)               (* c || true                                                  *)
+| AndTrue (st : N)              (* c && true        (c is not the last command of the list)   *)
+| IfCond (st : N)               (* if c; then :; fi                                           *)
+| Not (st : N)                  (* ! c                                                        *)
+| Return (st : N)               (* return st                                                  *)
+| Exit (st : N)                 (* exit st                                                    *)
+| Unset                         (* : "${never_set}"  - expansion of an unset variable          *)
+| Group (sts : list N)          (* ( c1; c2; ...; cn )                                        *)
+| Call (sts : list N)           (* helper; where  helper() { c1; c2; ...; cn; }               *)
+| Subst (sts : list N)          (* v=$( c1; c2; ...; cn )                                     *)
+| LocalSubst (sts : list N).    (* local v=$( c1; ...; cn )   - `local` masks the status      *)
+
+Definition body := list cmd.
+
+(* a mark in the trace: (position of the command in the body, 0) when the command starts,
+   (position, j) when the j-th command (from 1) of its inner block starts *)
+Definition step := (N * N)%type.
+
+(* A block `c1; c2; ...; cn` of simple commands run where errexit is in force (subshell,
+   called function, command substitution with inherit_errexit): every command starts
+   until one fails; that status ends the block.  All succeed: status 0. *)
+Fixpoint run_block (k j : N) (sts : list N) : list step * N :=
+  match sts with
+  | [] => ([], 0%N)
+  | s :: r =>
+    if N.eqb s 0 then let (t, st) := run_block k (N.succ j) r in ((k, j) :: t, st)
+    else ([(k, j)], s)
+  end.
+
+(* pipefail: "the return value of a pipeline is the value of the last (rightmost) command
+   to exit with a non-zero status, or zero if all commands exit successfully" - scanned
+   left to right, remembering the last failure *)
+Fixpoint pipe_status (sts : list N) (acc : N) : N :=
+  match sts with
+  | [] => acc
+  | s :: r => pipe_status r (if N.eqb s 0 then acc else s)
+  end.
+
+(* one command at position [k]: marks of its inner block, the status it leaves in $?,
+   and whether the function ends here (errexit / nounset kill the subshell the handler
+   runs in; return and exit leave it) *)
+Definition run_cmd (k : N) (c : cmd) : list step * N * bool :=
+  match c with
+  | Plain st => ([], st, negb (N.eqb st 0))
+  | Pipe sts => let s := pipe_status sts 0%N in ([], s, negb (N.eqb s 0))
+  | OrTrue _ => ([], 0%N, false)
+  | AndTrue st => ([], st, false)                  (* errexit ignores all but the last of && *)
+  | IfCond _ => ([], 0%N, false)                   (* no branch taken: status 0              *)
+  | Not st => ([], if N.eqb st 0 then 1%N else 0%N, false)   (* errexit ignores inverted status *)
+  | Return st => ([], st, true)
+  | Exit st => ([], st, true)
+  | Unset => ([], 1%N, true)                       (* "unbound variable": the shell exits 1  *)
+  | Group sts | Call sts | Subst sts =>
+      let (t, s) := run_block k 1%N sts in (t, s, negb (N.eqb s 0))
+  | LocalSubst sts => let (t, _) := run_block k 1%N sts in (t, 0%N, false)
+  end.
+
+(* the body from position [k] on; [last] is $? so far: a function that runs to its end
+   returns the status of the last command executed *)
+Fixpoint exec_from (k : N) (b : body) (last : N) : list step * N :=
+  match b with
+  | [] => ([], last)
+  | c :: r =>
+    match run_cmd k c with
+    | (inner, st, true) => ((k, 0%N) :: inner, st)
+    | (inner, st, false) =>
+      let (t, f) := exec_from (N.succ k) r st in ((k, 0%N) :: inner ++ t, f)
+    end
+  end.
+
+(* the harness's `__verif_h` line (status 0) precedes the body *)
+Definition exec_body (b : body) : list step * N := exec_from 0%N b 0%N.
+
+(* hook::run over handlers given by their bodies: [bodies h i] is what handler [h]
+   executes when the current context index is [i]. *)
+Fixpoint dispatchB_from (defined : list name) (bodies : name -> N -> body) (i : N) (cs : list ctx)
+  : trace * list (list step) * N :=
+  match cs with
+  | [] => ([], [], 0%N)
+  | c :: r =>
+    match table c with
+    | None => ([], [], 1%N)
+    | Some l =>
+      match first_defined defined (l ++ [main_name]) with
+      | None => ([], [], 1%N)
+      | Some h =>
+        let (ss, st) := exec_body (bodies h i) in
+        if N.eqb st 0 then
+          match dispatchB_from defined bodies (N.succ i) r with
+          | (t, s, f) => ((h, i, cur_binding c) :: t, ss :: s, f)
+          end
+        else ([(h, i, cur_binding c)], [ss], st)
+      end
+    end
+  end.
+
+Definition dispatchB (defined : list name) (bodies : name -> N -> body) (cs : list ctx) :=
+  dispatchB_from defined bodies 0%N cs.
+
+(* the observation with, per invocation, the marks of the commands that started *)
+Record obsB := mkObsB {
+  ob_obs   : obs;
+  ob_steps : list (list step)
+}.
+
+(* hook.sh:4-7: `__config__` is called in the main shell (no subshell): errexit, nounset,
+   exit and a non-zero return all end the script with that status *)
+Definition runB (args : list bytes) (defined : list name) (bodies : name -> N -> body) (cs : list ctx) : obsB :=
+  if is_config args then
+    if mem config_name defined
+    then let (ss, st) := exec_body (bodies config_name 0%N) in mkObsB (mkObs [config_entry] st true) [ss]
+    else mkObsB (mkObs [] 127%N false) []
+  else match dispatchB defined bodies cs with
+       | (t, s, f) => mkObsB (mkObs t f false) s
+       end.
